@@ -1,4 +1,5 @@
 import RCE.Driver.Codec
+import RCE.Proofs.KeyPartsDef
 import Std.Data.HashMap
 /-! Replays a `walk` / `fen` stream of the harness on the bitboard model and on the rules spec, and
     reports every difference.  Classes of report:
@@ -6,7 +7,7 @@ import Std.Data.HashMap
     * `spec`  — implementation ≠ independent oracle (a property is violated by the implementation),
     each tagged with the properties it bears on. -/
 namespace RCE.Driver
-open RCE RCE.Codec
+open RCE RCE.Codec RCE.Proofs
 
 structure Frame where
   mb : Board
@@ -34,6 +35,8 @@ structure Stats where
   legalMax : Nat := 0
   maxDepth : Nat := 0
   fenLoads : Nat := 0
+  perturbed : Nat := 0
+  perturbations : Nat := 0
 
 structure St where
   mb : Board := Board.start
@@ -217,6 +220,47 @@ def onUnmake (s : St) : St := Id.run do
     -- the implementation's next `D` line is compared with `mb'`, i.e. with the state recorded before the move
     return { s with mb := f.mb, sp := f.sp, stack := rest, stats := { s.stats with unmakes := s.stats.unmakes + 1 } }
 
+def rotl (x : UInt64) (n : Nat) : UInt64 := if n % 64 == 0 then x else (x <<< (n % 64).toUInt64) ||| (x >>> (64 - n % 64).toUInt64)
+
+/-- `P` line: every single-component perturbation of the current position must change the key;
+    the model enumerates the same perturbations in the same order and compares count and checksum -/
+def onPerturb (s : St) (rest : String) : St := Id.run do
+  let mut s := s
+  let t := rest.splitOn " "
+  let total := (t.getD 0 "0").toNat!
+  let changed := (t.getD 1 "0").toNat!
+  let acc := parseHex (t.getD 2 "0")
+  if changed != total then
+    s := s.report "spec" "C05" "perturbation-did-not-change-key" s!"total={total} changed={changed} unchanged=[{t.getD 3 ""}]"
+  -- model side
+  let b := s.mb
+  let pa : Nat → Option Kind := fun i => b.pieceAt (Square.ofIdx i)
+  let k0 := KeyParts.keyOfParts pa b.rights b.ep b.turn
+  let mut n := 0
+  let mut ch := 0
+  let mut a : UInt64 := 0
+  for sq in List.range 64 do
+    let cur := pa sq
+    for code in List.range 13 do
+      let newc : Option Kind := if code == 12 then none else some (kindOfCode code)
+      if newc != cur then
+        let k := KeyParts.keyOfParts (fun i => if i == sq then newc else pa i) b.rights b.ep b.turn
+        n := n + 1; a := a ^^^ rotl k n; if k != k0 then ch := ch + 1
+  let k := KeyParts.keyOfParts pa b.rights b.ep b.turn.opp
+  n := n + 1; a := a ^^^ rotl k n; if k != k0 then ch := ch + 1
+  let r := b.rights
+  for r' in [{ r with wk := !r.wk }, { r with wq := !r.wq }, { r with bk := !r.bk }, { r with bq := !r.bq }] do
+    let k := KeyParts.keyOfParts pa r' b.ep b.turn
+    n := n + 1; a := a ^^^ rotl k n; if k != k0 then ch := ch + 1
+  for f in List.range 9 do
+    let newf : Option Nat := if f == 8 then none else some f
+    if newf != b.ep then
+      let k := KeyParts.keyOfParts pa b.rights newf b.turn
+      n := n + 1; a := a ^^^ rotl k n; if k != k0 then ch := ch + 1
+  if n != total || ch != changed || a.toNat != acc then
+    s := s.report "model" "C05" "perturbation-keys" s!"impl=[{rest}] model=[{n} {ch} {hex64 a}]"
+  return { s with stats := { s.stats with perturbed := s.stats.perturbed + 1, perturbations := s.stats.perturbations + total } }
+
 def onAfter (s : St) (rest : String) : St :=
   if rest == "same" then s
   else s.report "spec" "C02" "legal-move-query-changed-the-position" s!"before=[{s.lastD}] after=[{rest}]"
@@ -236,6 +280,7 @@ def step (s : St) (line : String) : St :=
   | "K" => onKey s rest
   | "M" => onMove s rest
   | "U" => onUnmake s
+  | "P" => onPerturb s rest
   | _ => s
 
 def jsonStr (s : String) : String :=
@@ -244,7 +289,7 @@ def jsonStr (s : String) : String :=
 def summary (s : St) : String :=
   let st := s.stats
   let samples := ",".intercalate (s.samples.toList.map jsonStr)
-  "SUMMARY {" ++ s!"\"lines\":{s.lineNo},\"positions\":{st.positions},\"distinct_positions\":{s.idToKey.size},\"distinct_keys\":{s.keyToId.size},\"moves\":{st.moves},\"unmakes\":{st.unmakes},\"roots\":{st.roots},\"with_ep\":{st.withEp},\"with_castling_rights\":{st.withRights},\"in_check\":{st.inCheck},\"checkmates\":{st.mates},\"stalemates\":{st.stalemates},\"repeated_positions\":{st.repeated},\"castle_moves\":{st.castleMoves},\"ep_moves\":{st.epMoves},\"promotion_moves\":{st.promoMoves},\"capture_moves\":{st.captureMoves},\"legal_total\":{st.legalTotal},\"legal_max\":{st.legalMax},\"max_depth\":{st.maxDepth},\"model_mismatches\":{s.nModel},\"spec_mismatches\":{s.nSpec},\"samples\":[{samples}]" ++ "}"
+  "SUMMARY {" ++ s!"\"lines\":{s.lineNo},\"positions\":{st.positions},\"distinct_positions\":{s.idToKey.size},\"distinct_keys\":{s.keyToId.size},\"moves\":{st.moves},\"unmakes\":{st.unmakes},\"roots\":{st.roots},\"with_ep\":{st.withEp},\"with_castling_rights\":{st.withRights},\"in_check\":{st.inCheck},\"checkmates\":{st.mates},\"stalemates\":{st.stalemates},\"repeated_positions\":{st.repeated},\"castle_moves\":{st.castleMoves},\"ep_moves\":{st.epMoves},\"promotion_moves\":{st.promoMoves},\"capture_moves\":{st.captureMoves},\"legal_total\":{st.legalTotal},\"legal_max\":{st.legalMax},\"max_depth\":{st.maxDepth},\"perturbed_positions\":{st.perturbed},\"perturbations\":{st.perturbations},\"model_mismatches\":{s.nModel},\"spec_mismatches\":{s.nSpec},\"samples\":[{samples}]" ++ "}"
 
 partial def loop (h : IO.FS.Stream) (s : St) : IO St := do
   let line ← h.getLine
